@@ -7,6 +7,7 @@ import (
 	"net/netip"
 	"os"
 	"path/filepath"
+	"regexp"
 	"runtime"
 	"sort"
 	"strings"
@@ -134,6 +135,24 @@ func c34Classify(dump string) (deadlock bool, summary string) {
 		}
 	}
 	return blocked >= 2 && runnable == 0, fmt.Sprintf("nebula goroutines blocked on locks: %d, runnable: %d", blocked, runnable)
+}
+
+var c34GoroutineID = regexp.MustCompile(`^goroutine (\d+) \[`)
+
+// c34LockWaiters returns, by goroutine id, the nebula goroutines currently waiting for a mutex.
+func c34LockWaiters(dump string) map[string]string {
+	out := map[string]string{}
+	for _, g := range strings.Split(dump, "\n\n") {
+		if !strings.Contains(g, "github.com/slackhq/nebula") || strings.Contains(g, "zz_verif_") {
+			continue
+		}
+		if strings.Contains(g, "sync.(*Mutex).Lock") || strings.Contains(g, "sync.(*RWMutex).Lock") || strings.Contains(g, "sync.(*RWMutex).RLock") {
+			if m := c34GoroutineID.FindStringSubmatch(g); m != nil {
+				out[m[1]] = g
+			}
+		}
+	}
+	return out
 }
 
 // c34RaceSignatures reads the race detector's log files (GORACE log_path=race.log in the working
@@ -478,6 +497,24 @@ func TestC34_RaceWorkload(t *testing.T) {
 			buf := make([]byte, 16<<20)
 			dump := string(buf[:runtime.Stack(buf, true)])
 			dl, sum := c34Classify(dump)
+			if !dl {
+				// On a busy machine some unrelated nebula goroutine (a ticker loop) is usually runnable at the
+				// instant of the dump. No critical section of the engine lasts seconds: goroutines that wait for
+				// a mutex now and are still the same goroutines waiting 20 s later are stuck for good.
+				w1 := c34LockWaiters(dump)
+				time.Sleep(20 * time.Second)
+				dump2 := string(buf[:runtime.Stack(buf, true)])
+				stuck := 0
+				for id := range c34LockWaiters(dump2) {
+					if _, ok := w1[id]; ok {
+						stuck++
+					}
+				}
+				if stuck >= 2 {
+					dl, sum = true, fmt.Sprintf("%d nebula goroutines waited for a mutex at 60 s and still at 80 s", stuck)
+					dump = dump2
+				}
+			}
 			fmt.Printf("C34-WATCHDOG %s\n%s\n", sum, dump)
 			if dl {
 				rt.Fatalf("deadlock: workload did not finish within 60 s; %s\n%s", sum, desc)
